@@ -226,6 +226,66 @@ def run(ctx):
                       "a pointer into the jumbo data is used as a C string without checking that a terminator "
                       "exists inside the event: the string functions can run past the loaded stream")
 
+    # ---- R19.3 (b'): the terminator search and every copy out of the jumbo data stay inside the event -----
+    # the handler is interpreted with a symbolic payload size ps and jumbo size js = ps - 4 (what emu_ev sets up);
+    # memchr / strnlen / memcpy on a pointer into the payload must cover bytes [off, off + n) with off + n <= ps
+    def _pl_off(ptr):
+        """byte offset, from the start of the payload, of a pointer into PL"""
+        if ptr[0] != "ptr" or ptr[1] != "PL":
+            return None
+        off = 0
+        for comp in ptr[2]:
+            if isinstance(comp, int):
+                off += comp
+            elif isinstance(comp, tuple) and len(comp) == 2 and isinstance(comp[0], str):
+                rec = prog.records.get(comp[0])
+                fl = [x for x in (rec or {}).get("fields", []) if x["name"] == comp[1]]
+                if not fl:
+                    return None
+                off += fl[0]["offbits"] // 8
+            elif isinstance(comp, tuple) and comp and comp[0] == "lin":
+                return None
+            else:
+                return None
+        return off
+    for f in prog.functions.values():
+        if not f.file.startswith("src/emu/") or not f.file.endswith("/event.c"):
+            continue
+        if not any(n["k"] == "MemberExpr" and n.get("rec") == "ovni_jumbo_payload" and n["field"] == "data" for n in f.nodes):
+            continue
+        model = f.file.split("/")[2]
+        found = []
+
+        def oc(ex_, st, f_, e, cal, args, found=found):
+            spec_ = {"memchr": (0, 2), "strnlen": (0, 1), "memcpy": (1, 2), "__builtin___memcpy_chk": (1, 2)}.get(cal)
+            if spec_ is None or len(args) <= max(spec_):
+                return
+            off = _pl_off(args[spec_[0]])
+            if off is None:
+                return
+            found.append((cal, off, args[spec_[1]], st.cons, f_.loc(e)))
+        exj = absint.Explorer(prog, effects=eff, on_call=oc, loop_bound=2, max_paths=20000,
+                              on_unknown_call=lambda cal, args, f_, e: None)
+        ps = exj.sym("ps", 4, 2 ** 32)
+        storej = {("EMU", F("emu", "ev")): PTR("EV"), ("EV", F("emu_ev", "payload")): PTR("PL"),
+                  ("EV", F("emu_ev", "payload_size")): ps, ("EV", F("emu_ev", "is_jumbo")): INT(1),
+                  ("EV", F("emu_ev", "v")): INT(ord("c")),
+                  ("PL", F("ovni_ev_payload", "jumbo") + F("ovni_jumbo_payload", "size")): absint.mk_lin(-4, {"ps": 1}),
+                  ("EMU", F("emu", "proc")): PTR("PROC"), ("EMU", F("emu", "thread")): PTR("TH")}
+        exj.run(f, [PTR("EMU")], storej)
+        for k_, (cal, off, n_, cons_, where_) in enumerate(found):
+            ln = absint.to_lin(n_)
+            ok_ = False
+            if ln is not None:
+                t_ = dict(ln[1])
+                t_["ps"] = t_.get("ps", 0) - 1
+                ok_ = exj.decide_cmp(cons_, "<=", ln[0] + off, {a_: b_ for a_, b_ in t_.items() if b_}) is True
+            ctx.check(ok_, "R19.3", "%s:%s:%s#%d:inside-event" % (model, f.name, cal, k_ + 1), where_,
+                      "%s covers payload bytes [%d, %d + %s) but the event has only ps = 4 + jumbo.size payload bytes: "
+                      "the access can run past the event (and past the loaded stream)" % (cal, off, off, absint_s(n_)))
+        ctx.check(len(found) >= 1, "R19.3", "%s:%s:jumbo-accesses-interpreted" % (model, f.name), f.loc(),
+                  "no bounded access to the jumbo data was reached by the interpreter")
+
     # ---- R19.3 (c): the event printer ------------------------------------------------------------------
     mep = prog.fn("model_event_print", "src/emu/model.c")
     pr_calls = mep.calls("ev_spec_print")
@@ -311,6 +371,13 @@ def run(ctx):
         else:
             ctx.check(rets and all(r == NULL for r in rets), "R19.4", inst, lg.loc(),
                       "an out-of-range CPU index taken from an event is not refused (returns %s)" % rets)
+
+
+def absint_s(v):
+    l = absint.to_lin(v)
+    if l is None:
+        return str(v)
+    return " + ".join(["%d" % l[0]] + ["%d*%s" % (c, k) for k, c in sorted(dict(l[1]).items())])
 
 
 def _payload_reads(ctx, prog, eff, reg, f):
